@@ -410,7 +410,7 @@ func c22Report(r *vkit.Run, st *c22Stack, ds *c22Dataset, q *c22Query, dsNo, qNo
 		class = "fill_linear_negative_time"
 		w.Class = class
 	}
-	if (class == "row_value" || class == "row_count" || class == "row_time") && mq.Fill == 'x' && mq.Limit > 0 && len(mq.Cols) > 1 {
+	if class != "error" && class != "slimit_depends_on_shard_layout" && mq.Fill == 'x' && mq.Limit > 0 && len(mq.Cols) > 1 {
 		// every column alone agrees with the reference, only the joint LIMIT/OFFSET result differs
 		alone := true
 		for i := range mq.Cols {
